@@ -176,12 +176,9 @@ def ambient() -> dict:
     import random
     import sys as _sys
 
-    out["ambient:random.state"] = _dig(random.getstate())
-    try:
-        st = np.random.get_state()
-        out["ambient:numpy.random.state"] = _dig((st[0], hashlib.blake2b(st[1].tobytes(), digest_size=8).hexdigest(), st[2], st[3], repr(st[4])))
-    except Exception:
-        pass
+    # NOT included: the global `random` / `numpy.random` generator states.  Third-party optimisers used by the
+    # heat-pump targeting draw from numpy's global generator; that is a dependency's business, not "module-level
+    # state of the library", and results that depended on it would already differ from the fresh-process oracle.
     out["ambient:decimal.context"] = repr(decimal.getcontext())
     try:
         out["ambient:locale"] = repr(locale.getlocale())
